@@ -26,6 +26,9 @@ import (
 type vShape struct {
 	rpc, unicast, multicast, quorumcall, correctable, async, perNode, custom bool
 	clientStream, serverStream                                               bool
+	// explicitFalse: the boolean option with this index (1 rpc .. 7 per_node_arg, 0 none) is
+	// spelt out as "= false": the extension is present (HasExtension) with the value false
+	explicitFalse int
 }
 
 type vMethodDesc struct {
@@ -58,6 +61,28 @@ func vstubMessageOf(x interface{}, m interface{}) protoreflect.Message {
 	return m.(*vOptions).ProtoReflect()
 }
 
+// vOptIndex numbers the boolean options (explicitFalse).
+func vOptIndex(xt protoreflect.ExtensionType) int {
+	switch xt.(*protoimpl.ExtensionInfo) {
+	case gorums.E_Rpc:
+		return 1
+	case gorums.E_Unicast:
+		return 2
+	case gorums.E_Multicast:
+		return 3
+	case gorums.E_Quorumcall:
+		return 4
+	case gorums.E_Correctable:
+		return 5
+	case gorums.E_Async:
+		return 6
+	case gorums.E_PerNodeArg:
+		return 7
+	}
+	return -1
+}
+
+// vBit: is the option present on the method (set to true, or spelt out as false)?
 func vBit(m proto.Message, xt protoreflect.ExtensionType) bool {
 	s := m.(*vOptions).shape
 	switch xt.(*protoimpl.ExtensionInfo) {
@@ -92,7 +117,8 @@ func vstubGetExtension(m proto.Message, xt protoreflect.ExtensionType) interface
 		}
 		return ""
 	}
-	return vBit(m, xt)
+	// the value of a boolean option: true if set, false if absent or spelt out as false
+	return vBit(m, xt) && m.(*vOptions).shape.explicitFalse != vOptIndex(xt)
 }
 
 //verif:stub github.com/relab/gorums/cmd/protoc-gen-gorums/gengorums.callTypeName
@@ -259,5 +285,57 @@ func VerifC16Reserved() {
 	}
 }
 
-func VerifC16LatticeTwin()  { VerifC16Lattice(); vFail("C16.twin") }
-func VerifC16ReservedTwin() { VerifC16Reserved(); vFail("C16.twin") }
+// VerifC16ExplicitFalse: one boolean option is spelt out as "= false" (the extension is present,
+// its value is false), every other option and the stream flags are symbolic. The documentation
+// does not say whether such an option counts as set; whichever reading the generator takes, it
+// must take it everywhere: either a diagnostic, or exactly one client stub whose call type all
+// template helpers agree on, whatever the iteration order of the call-type map.
+func VerifC16ExplicitFalse() {
+	k := 1 + vChoice("explicit-false", 7)
+	s := &vShape{rpc: vBool("rpc"), unicast: vBool("unicast"), multicast: vBool("multicast"), quorumcall: vBool("quorumcall"),
+		correctable: vBool("correctable"), async: vBool("async"), perNode: vBool("per_node_arg"), custom: vBool("custom_return_type"),
+		clientStream: vBool("client_stream"), serverStream: vBool("server_stream"), explicitFalse: k}
+	// the option spelt out as false is present
+	switch k {
+	case 1:
+		vAssume(s.rpc)
+	case 2:
+		vAssume(s.unicast)
+	case 3:
+		vAssume(s.multicast)
+	case 4:
+		vAssume(s.quorumcall)
+	case 5:
+		vAssume(s.correctable)
+	case 6:
+		vAssume(s.async)
+	case 7:
+		vAssume(s.perNode)
+	}
+	m := c16Method(s)
+	var err error
+	stopped := vExpectPanic(func() { err = validateOptions(m) })
+	if stopped || err != nil {
+		vReach("explicit-false-diagnostic")
+		return
+	}
+	n, sel := c16Emitted(m)
+	vReach("explicit-false-accepted")
+	vAssert(n == 1, "C16.not-exactly-one-client-stub")
+	hasQF := sel.template == quorumCall || sel.template == asyncCall || sel.template == correctableCall
+	if hasQF {
+		var ct2 *callTypeInfo
+		panicked := vExpectPanic(func() { ct2 = callType(m) })
+		vAssert(!panicked, "C16.calltype-panics")
+		vAssert(ct2 == sel, "C16.calltype-depends-on-map-order")
+	}
+	vAssert((len(qspecMethods([]*protogen.Method{m})) == 1) == hasQF, "C16.qspec-disagrees-with-template")
+	svc := []*protogen.Service{{Methods: []*protogen.Method{m}}}
+	vAssert((len(mapInternalOutType(nil, svc)) == 1) == hasQF, "C16.internal-type-disagrees-with-template")
+	vAssert((len(mapAsyncOutType(nil, svc)) == 1) == (sel.template == asyncCall), "C16.async-type-disagrees-with-template")
+	vAssert((len(mapCorrectableOutType(nil, svc)) == 1) == (sel.template == correctableCall), "C16.correctable-type-disagrees-with-template")
+}
+
+func VerifC16ExplicitFalseTwin() { VerifC16ExplicitFalse(); vFail("C16.twin") }
+func VerifC16LatticeTwin()       { VerifC16Lattice(); vFail("C16.twin") }
+func VerifC16ReservedTwin()      { VerifC16Reserved(); vFail("C16.twin") }
